@@ -150,7 +150,16 @@ def install(idm):
         @classmethod
         def now(cls, tz=None):
             a = agent()
-            return from_us(a.now_us if a is not None else 0)
+            local = from_us(a.now_us if a is not None else 0)
+            if tz is None:
+                return local
+            # a local clock 9 hours east of UTC (see c04.install_clock): mixing local and UTC time stamps shows
+            return (local - _dt.timedelta(hours=9)).replace(tzinfo=_dt.timezone.utc).astimezone(tz)
+
+        @classmethod
+        def utcnow(cls):
+            a = agent()
+            return from_us(a.now_us if a is not None else 0) - _dt.timedelta(hours=9)
 
     orig = saved[3]
 
